@@ -17,6 +17,7 @@ sequence and the answer carries one record per step, joined by `|`.
   C compress     K clear   T reset   S/0|1 sort     Y copy       M move
   P/<k=v&k=v..>/<k&k..> merge with a fresh table built by those inserts then those removals
   (`Q/..` the same through the moving `operator+=`; identical for the destination)
+  W self-merge `h += h` (a no-op since the repair)
 -/
 namespace Qentem.Driver.HashTable
 open Qentem.Driver Qentem.HashTable
@@ -59,6 +60,7 @@ def parseOp {V : Type} (io : ValIO V) (s : String) : Option (Op V) :=
   | ["M"] => some .move
   | ["P", ins, rem] => do let ins ← parsePairs io ins; let rem ← parseKeys rem; pure (.merge ins rem)
   | ["Q", ins, rem] => do let ins ← parsePairs io ins; let rem ← parseKeys rem; pure (.merge ins rem)
+  | ["W"] => some .selfMerge
   | _ => none
 
 def parseOps {V : Type} (io : ValIO V) (s : String) : Option (List (Op V)) :=
